@@ -6,9 +6,31 @@ def T(name, variant, *args, **kw):
 CHECK = {
   'id': 'C15',
   'level': 'exploration',
-  'rule': 'tbd',
-  'bounds': {'quick': 'tbd', 'thorough': 'tbd'},
-  'assumptions': [],
+  'rule': ('exhaustive grid: every (value | ordered pair of values joined by ", " or " ") x writer (show_to, print_to %$, print_to with each '
+           'numeric / %s specification) x compatible reader (look_from, scan_from %$, scan_from with each specification) x sink/source kind '
+           '(heap String, File over tmpfile(), File over open_memstream/fmemopen) x start position {0,2}; each case writes through the real '
+           'library, fetches the text from the sink, reads it back through the real library and compares: sink text == filler + text of each '
+           'value written alone (String sink == File sink), writer and reader return start + characters written, File stream offset == that '
+           'number, value read == value written (Float: == strtod of the written text; readers that C defines as float readers: strtof; '
+           'raw %s readers: the token libc sscanf yields); distinct_nontrivial = cases whose value is negative or beyond int32 (Int), not '
+           'representable as a float (Float), or contains anything but plain letters (String)'),
+  'bounds': {
+    'quick': ('89 Int values (0, +-1, +-9, +-10, 2^k and 2^k+-1 for 16 exponents up to 62, INT32/UINT32/INT64 limits and neighbours; 12 in pairs) x 15 writers x 13 readers; '
+              '348 finite doubles (powers of 2 and 10 across the range, 2^24+-1, 2^53+-1, 1/3, 0.1, DBL_MAX/MIN, FLT_MAX/MIN and beyond, denormals, +-0, both signs; 16 in pairs) '
+              'x 14 writers x 10 readers; all 2380 strings of length <= 3 over {a, space, ", \\, \', ?, \\n, \\t, \\a, 0x01, 0x7F, 0x80, 0xFF} plus one of '
+              'length 40 (pairs from the 14 strings of length <= 1) x 3 writers x 3 readers; 3 sink kinds; the same under ASan+UBSan'),
+    'thorough': ('484 Int values (all 2^k, 2^k+-1, 10^k, 10^k+-1; 49 in pairs); 20438 finite doubles (every power of two -1074..1023 with both '
+                 'neighbours, every power of ten -323..308 with neighbours and multiples, both signs; 68 in pairs); all 30941 strings of length <= 4 '
+                 '(pairs from the 183 of length <= 2); ASan+UBSan on the Int full grid, the quick Float grid and strings <= 3 with pairs <= 2'),
+  },
+  'assumptions': [
+    'glibc strtod/strtof/sscanf/snprintf are the reference for "the best any reader can do at the printed precision" and for the C semantics of %s and of float readers without l',
+    'Float equality is bit equality with strtod of the written text (so -0.0 must come back as -0.0); NaN and infinities are outside the property',
+    'numeric specifications without l are exercised only for values in the range of int / unsigned int (C14 convention); left-justified widths are not used (trailing blanks are not part of a number)',
+    'raw %s pairs only for non-empty strings without white space and only with the " " separator (anything else is not reversible by the definition of %s)',
+    'for a File the position argument is the stream offset: the harness seeks to the start position before reading; sequential look_from calls are separated by a seek over the separator',
+    'gcc/clang, glibc stdio (tmpfile, open_memstream, fmemopen) and the sanitizer run-times are trusted',
+  ],
   'instances': {
     'quick': [
       T('int', 'base', 'type=int'),
